@@ -68,6 +68,27 @@ def run(ctx):
                     % tr_self, "%s:%s" % (eqs[0]["file"], eqs[0]["line"]))
         else:
             res.ok(key, "", "no Eq marker: element-wise IEEE comparison everywhere")
+    # identity of function values: a Function struct is never copied on the run path (a copy is a new identity under
+    # Arc::ptr_eq); the reviewed re-tagging sites use Arc::unwrap_or_clone on a value nobody else holds yet
+    FCLONE = "<function::Function as std::clone::Clone>::clone"
+    direct = sorted(lib.callers.get(FCLONE, ()))
+    if direct:
+        for c in direct:
+            cb = lib.body(c)
+            res.bad("fn-identity:clone:" + c, "%s copies a Function value (Function::clone): the copy is a different function under `==` "
+                                              "(identity), e.g. a function's own name inside its body no longer equals the caller's reference" % c,
+                    cb.where() if cb else "")
+    else:
+        res.ok("fn-identity:no-struct-clone", "", "no direct call of Function::clone in the crate")
+    ewa = lib.body("function::Function::exec_with_args")
+    if res.anchor(ewa is not None, "Function::exec_with_args"):
+        from ..owners import for_crate
+        arc_clone = [c for hb in for_crate(lib).members("function::Function::exec_with_args") for c in hb.calls
+                     if c.full == "<std::sync::Arc<function::Function> as std::clone::Clone>::clone"]
+        if arc_clone:
+            res.ok("fn-identity:own-name", ewa.where(), "the function's own name is bound to a clone of the Arc (same identity)")
+        else:
+            res.bad("fn-identity:own-name", "exec_with_args no longer binds the function's own name to a clone of the same Arc<Function>", ewa.where())
     for u, methods in USERS.items():
         b = lib.body(u)
         if not res.anchor(b is not None, u):
